@@ -111,7 +111,7 @@ def make_cone(target, timeout=1800):
 class Ctx:
     def __init__(self, pid, tier, seed):
         import numpy as np
-        self.pid = pid; self.tier = tier; self.seed = seed
+        self.pid = pid; self.tier = tier; self.seed = seed; self.escalate = False
         self.rng = np.random.default_rng(seed)
         self.t0 = time.time()
         self.work = os.path.join(SNAP or '/tmp', 'coqwork'); os.makedirs(self.work, exist_ok=True)
@@ -146,6 +146,11 @@ class Ctx:
         self.violations.append({'key': key, 'what': what, 'replay': replay})
 
     def q(self, quick, thorough):
+        # a broken proof obligation / translation / correspondence escalates the remaining streams of a quick run to the thorough budgets:
+        # the search for a concrete failing input is what turns the break into a replay
+        if self.tier == 'quick' and (self.broken or self.escalate) and os.environ.get('VERIF_NO_ESCALATION') != '1':
+            self.escalate = True
+            return thorough
         return quick if self.tier == 'quick' else thorough
 
     # ---- proofs
